@@ -42,6 +42,16 @@ def subject(kind, value, idx, lua_script):
         return ['# <block name="subj" affects="%s">' % value, "changed", "# </block>"], None
     if kind == "re":
         which = idx % 4
+        one = (idx // 4) % 2 == 1      # a block with content: one line is content enough
+        if one:
+            body = ["a"]
+            if which == 0:
+                return ['# <block name="subj" keep-sorted keep-sorted-pattern="%s">' % value] + body + ["# </block>"], None
+            if which == 1:
+                return ['# <block name="subj" keep-unique="%s">' % value] + body + ["# </block>"], None
+            if which == 2:
+                return ['# <block name="subj" line-pattern="%s">' % value] + body + ["# </block>"], None
+            return ['# <block name="subj" check-lua="%s" check-lua-pattern="%s">' % (lua_script, value)] + body + ["# </block>"], None
         if which == 0:
             return ['# <block name="subj" keep-sorted keep-sorted-pattern="%s">' % value, "a", "ab", "# </block>"], None
         if which == 1:
@@ -179,6 +189,9 @@ def explicit_battery(chk, wd, lua_ok):
         ("ai: empty condition", ['# <block name="subj" check-ai="">', "c", "# </block>"]),
         ("ai: blank condition", ['# <block name="subj" check-ai="   ">', "c", "# </block>"]),
         ("ai: missing key", ['# <block name="subj" check-ai="must be fine">', "c", "# </block>"]),
+        ("ai: missing key, empty block", ['# <block name="subj" check-ai="must be fine">', "# </block>"]),
+        ("ai: missing key, pattern without match", ['# <block name="subj" check-ai="must be fine" check-ai-pattern="NOMATCH[0-9]">', "c", "# </block>"]),
+        ("ai: missing key, blank content", ['# <block name="subj" check-ai="must be fine">', "   ", "# </block>"]),
         ("ai: bad pattern", ['# <block name="subj" check-ai="must be fine" check-ai-pattern="(">', "c", "# </block>"]),
     ]
     good = [
